@@ -48,7 +48,7 @@ func Spec() *run.Spec {
 			"rotation components lie in [-1,1] (the 8-bit quantiser covers exactly that range; colours are the only field the property lets clamp)",
 			"colour, opacity and rotation are compared in quantiser space: |unit(got) − clamp(unit(orig))| ≤ 1/255, |sigmoid(got) − sigmoid(orig)| ≤ 1/255 (so an opacity decoded from byte 0 / 255 as ∓Inf is within one step), |rot(got) − rot(orig)| ≤ 1/128",
 			"SPZ: values whose dequantiser is exactly representable (24-bit positions, halves, scales, SH) must be bit-exact; colour, rotation xyz and a/255 within 1e-6 relative (float32 vs float64 evaluation of the published formula); rotation w: w ≥ 0 and |w² − max(0,1−|xyz|²)| ≤ 2e-6; opacity either a/255 (polyform's documented choice) or logit(a/255) (published)",
-			"SPZ fractional bits are drawn from the whole byte range 0–255. Version-2 positions are judged (bit-exact fixed·2^-bits) for 0–62; for 63 the unchanged tree returns the NEGATED value (1<<63 is the most negative int) and for 64–255 ±Inf/NaN (the shift yields 0), the published decoder (32-bit shift) is undefined from 31 on: there the positions are only counted (equal / different), every other attribute is judged",
+			"SPZ fractional bits are drawn from the whole byte range 0–255 and version-2 positions are judged bit-exact against fixed·2^-bits for all of them (exact in float64); the published C++ decoder shifts a 32-bit int and is undefined from 31 on, so for 31–255 the reference is the mathematical value the layout names, which is also what polyform computes since the fix of the 1<<bits overflow at 63 and above",
 		},
 		MinNontrivial: map[string]int{"quick": 300, "thorough": 2000},
 		MinObserved: map[string]int64{
@@ -67,6 +67,8 @@ func Spec() *run.Spec {
 			"splatply/clouds_with_gaps_in_f_rest_numbering":  1000,
 			"splatply/f_rest_numbers_in_gapped_clouds":       45,
 			"spz/v2_positions_judged/fractional_bits_32-62":  3000,
+			"spz/v2_positions_judged/fractional_bits_63":     500,
+			"spz/v2_positions_judged/fractional_bits_64-255": 1500,
 			"large/point_counts":                             9,
 			"large/spz_points_compared":                      200000,
 			"large/splat_splats_round_tripped":               200000,
